@@ -170,3 +170,50 @@ Definition uncompressed_appended (gx gy base : bytes) : bool := bytes_eqb (gx ++
 Definition uncompressed_sliced (gx gy base : bytes) : result bool :=
   if (length base <? 1 + length gx)%nat then Panic "slice bounds out of range"
   else Ok (bytes_eqb gx (firstn (length gx) (tl base)) && bytes_eqb gy (skipn (length gx) (tl base))).
+
+(* ---------------------------------------------------------------------------------------------
+   Reading SEVERAL keys from one OpenPGP block.  The repository reads the first key only (parsers.go pgpKey:
+   one call of openpgp.ReadEntity).  A loop over all keys has to deal with what ReadEntity (read.go) leaves
+   behind when it fails: a packet that is not a primary key is pushed back (packets.Unread) and the error
+   returned; a key that turns out unusable part-way has consumed the packets up to the point of failure.
+   openpgp.ReadKeyRing therefore calls readToNextPublicKey after a StructuralError / UnsupportedError
+   ([ring_skip]).  NOT in the repository: the same loop that just tries again ([ring_retry]) - the shape of
+   defect the container inputs (several keys, a later one damaged) are generated for.
+   Packets are abstracted to what matters for progress: a primary key packet (is the key usable? if not, how
+   many of the packets after it are consumed before the failure) or any other packet. *)
+Inductive pkt := PKey (usable : bool) (reads : nat) | POther.
+Inductive rd := REof | REntity (rest : list pkt) | RError (rest : list pkt).
+
+(* the identities, subkeys and signatures after a key: everything up to the next primary key *)
+Fixpoint skip_others (l : list pkt) : list pkt :=
+  match l with POther :: r => skip_others r | _ => l end.
+Fixpoint drop_others (n : nat) (l : list pkt) : list pkt :=
+  match n, l with S m, POther :: r => drop_others m r | _, _ => l end.
+
+Definition read_entity (l : list pkt) : rd :=
+  match l with
+  | [] => REof
+  | POther :: _ => RError l                           (* "first packet was not a key": pushed back *)
+  | PKey true _ :: r => REntity (skip_others r)
+  | PKey false n :: r => RError (drop_others n r)     (* fails after n of the following packets *)
+  end.
+
+(* number of keys listed, None when the fuel runs out *)
+Fixpoint ring_skip (fuel : nat) (l : list pkt) : option nat :=
+  match fuel with
+  | O => None
+  | S f => match read_entity l with
+           | REof => Some O
+           | REntity r => option_map S (ring_skip f r)
+           | RError r => ring_skip f (skip_others r)   (* readToNextPublicKey *)
+           end
+  end.
+Fixpoint ring_retry (fuel : nat) (l : list pkt) : option nat :=
+  match fuel with
+  | O => None
+  | S f => match read_entity l with
+           | REof => Some O
+           | REntity r => option_map S (ring_retry f r)
+           | RError r => ring_retry f r                (* `continue` *)
+           end
+  end.
